@@ -130,10 +130,56 @@ Result run_scn(Scn const& sc, bool with_nat, Ctx* ctx)
 // reports must follow the address each message was actually sent from.
 // ---------------------------------------------------------------------------------------------
 struct MhCfg { int first; /*0 natted address first, 1 public address first*/ int reuse; /*0 close+open+bind, 1 move-construct then close+open+bind, 2 a fresh socket per address*/ int proto; /*0 udp, 1 tcp*/ };
-std::string mh_str(MhCfg const& m) { return fmt("multi-homed sender {10.0.0.5 behind NAT 77.0.0.1, 60.0.0.1 public}: %s first, %s, %s", m.first == 0 ? "natted address" : "public address", m.reuse == 0 ? "same socket object re-bound" : m.reuse == 1 ? "socket moved, then re-bound" : "fresh socket per address", m.proto == 0 ? "UDP" : "TCP"); }
+std::string mh_str(MhCfg const& m) { if (m.proto == 2) return fmt("two nodes %s, both connecting from port 4000 to one acceptor; accepts %s", m.first == 0 ? "behind ONE external address 77.0.0.1" : "(one behind 77.0.0.1, one public)", m.reuse == 0 ? "posted up front" : m.reuse == 1 ? "posted 100 ms later" : "posted 100 ms later, one after the other"); return fmt("multi-homed sender {10.0.0.5 behind NAT 77.0.0.1, 60.0.0.1 public}: %s first, %s, %s", m.first == 0 ? "natted address" : "public address", m.reuse == 0 ? "same socket object re-bound" : m.reuse == 1 ? "socket moved, then re-bound" : "fresh socket per address", m.proto == 0 ? "UDP" : "TCP"); }
+
+
+// third family: two nodes behind ONE external address (or one natted, one public), both connecting from the same port number to
+// the same acceptor at the same time; the accepts are posted up front, 100 ms later, or one after the other from the accept handler
+Result run_two(int natted /*0 both behind 77.0.0.1, 1 only the first*/, int when /*accepts are posted one after the other: 0 from the start, 1 from 100 ms on (both SYNs are queued by then), 2 from 3 ms on*/, Ctx* ctx)
+{
+	Result R;
+	auto ev = [&](std::string const& s) { R.events.push_back(s); R.times.push_back(now_ns()); if (ctx) ++ctx->R.transitions; };
+	auto fail = [&](std::string const& s) { R.fails.push_back(s); };
+	World w;
+	w.on_build = [&](World& ww, sim::simulation&) {
+		auto net = ww.queue(0, ms(5), 0); ww.chan = [net](ip::address, ip::address) { return World::hops_t{ net }; };
+		auto nat = std::make_shared<sim::nat>(addr("77.0.0.1"));
+		ww.out[addr("10.0.0.1")] = World::hops_t{ ww.queue(0, ms(1), 0), nat };
+		ww.out[addr("10.0.0.2")] = natted == 0 ? World::hops_t{ ww.queue(0, ms(2), 0), nat } : World::hops_t{ ww.queue(0, ms(2), 0) };
+	};
+	sim::simulation sim(w);
+	asio::io_context n1(sim, addr("10.0.0.1")), n2(sim, addr("10.0.0.2")), nS(sim, addr("10.0.1.1"));
+	ip::tcp::acceptor acc(nS); acc.open(ip::tcp::v4()); acc.bind(ip::tcp::endpoint(addr("10.0.1.1"), 6000)); acc.listen();
+	struct A { ip::tcp::socket s; ip::tcp::endpoint pe; std::vector<char> b; std::string got; bool up = false; explicit A(asio::io_context& n) : s(n), b(16) {} };
+	A a0(nS), a1(nS); A* as[2] = { &a0, &a1 };
+	std::function<void(int)> post = [&](int i) { as[i]->s.close(); acc.async_accept(as[i]->s, as[i]->pe, [&, i](error_code const& ec) { if (ec) { fail("accept: " + ecs(ec)); return; } as[i]->up = true; error_code e2; ev(fmt("accept %d: peer %s remote %s", i, eps(as[i]->pe).c_str(), eps(as[i]->s.remote_endpoint(e2)).c_str()));
+		as[i]->s.async_read_some(asio::buffer(as[i]->b), [&, i](error_code const& e3, std::size_t n) { if (e3) return; as[i]->got.assign(as[i]->b.data(), n); std::string re = as[i]->got; for (auto& ch : re) ch = char(tolower(ch)); auto keep = std::make_shared<std::string>(re); asio::async_write(as[i]->s, asio::buffer(*keep), [keep](error_code const&, std::size_t) {}); });
+		if (i == 0) post(1); /* one accept at a time: a second accept posted while one is outstanding would supersede it */ }); };
+	asio::high_resolution_timer later(nS);
+	if (when == 0) post(0); else { later.expires_after(ms(when == 1 ? 100 : 3)); later.async_wait([&](error_code const&) { post(0); }); }
+	ip::tcp::socket c1(n1), c2(n2); ip::tcp::socket* cs[2] = { &c1, &c2 }; bool cup[2] = { false, false }; std::string cgot[2]; std::vector<char> cb[2] = { std::vector<char>(16), std::vector<char>(16) };
+	const char* ca[2] = { "10.0.0.1", "10.0.0.2" }; const char* tag[2] = { "FROM-ONE", "FROM-TWO" };
+	for (int i = 0; i < 2; ++i) { cs[i]->open(ip::tcp::v4()); cs[i]->bind(ip::tcp::endpoint(addr(ca[i]), 4000));
+		cs[i]->async_connect(ip::tcp::endpoint(addr("10.0.1.1"), 6000), [&, i](error_code const& ec) { ev(fmt("client %d connect %s", i + 1, ecs(ec).c_str())); if (ec) { fail(fmt("connect: client %d behind the shared address: ", i + 1) + ecs(ec)); return; } cup[i] = true;
+			asio::async_write(*cs[i], asio::buffer(tag[i], 8), [](error_code const&, std::size_t) {});
+			cs[i]->async_read_some(asio::buffer(cb[i]), [&, i](error_code const& e3, std::size_t n) { if (!e3) cgot[i].assign(cb[i].data(), n); }); }); }
+	sim.run();
+	for (int i = 0; i < 2; ++i) {
+		if (!cup[i]) fail(fmt("establish: the connect of client %d never completed successfully (two connectors behind one external address, same port number)", i + 1));
+		std::string want = tag[i]; for (auto& ch : want) ch = char(tolower(ch));
+		if (cup[i] && cgot[i] != want) fail(fmt("both_directions: client %d sent '%s' and got '%s' back, expected '%s'", i + 1, tag[i], cgot[i].c_str(), want.c_str()));
+	}
+	int ups = 0; for (auto* a : as) if (a->up) { ++ups; error_code e2; std::string re = eps(a->s.remote_endpoint(e2));
+		std::string from = a->got == "FROM-ONE" ? "77.0.0.1:4000" : a->got == "FROM-TWO" ? (natted == 0 ? "77.0.0.1:4000" : "10.0.0.2:4000") : "?";
+		if (from != "?" && (eps(a->pe) != from || re != from)) fail("accepted_remote: the connection that carried '" + a->got + "' reports peer " + eps(a->pe) + " / remote " + re + ", expected " + from); }
+	if (ups != 2) fail(fmt("establish: %d of 2 connections were accepted", ups));
+	error_code ig; c1.close(ig); c2.close(ig); a0.s.close(ig); a1.s.close(ig); acc.close(ig); sim.run();
+	return R;
+}
 
 Result run_mh(MhCfg const& mc, Ctx* ctx)
 {
+	if (mc.proto == 2) return run_two(mc.first, mc.reuse, ctx);
 	Result R;
 	auto ev = [&](std::string const& s) { R.events.push_back(s); R.times.push_back(now_ns()); if (ctx) ++ctx->R.transitions; };
 	auto fail = [&](std::string const& s) { R.fails.push_back(s); };
@@ -199,7 +245,7 @@ struct NatEngine : Engine
 	std::vector<Scn> all; std::vector<MhCfg> mh;
 	uint64_t units(Args const&) override
 	{
-		mh.clear(); for (int f = 0; f < 2; ++f) for (int r = 0; r < 3; ++r) for (int p = 0; p < 2; ++p) mh.push_back(MhCfg{ f, r, p });
+		mh.clear(); for (int f = 0; f < 2; ++f) for (int r = 0; r < 3; ++r) for (int p = 0; p < 3; ++p) mh.push_back(MhCfg{ f, r, p });
 		all.clear();
 		for (int p : PLACEMENTS) for (int e = 0; e < 2; ++e) for (int t = 0; t < 5; ++t) for (int c = 0; c < 2; ++c) for (int port = 0; port < 3; ++port) for (int l = 0; l < 2; ++l) all.push_back(Scn{ p, e, t, c, port, l });
 		return all.size() + mh.size();
